@@ -64,6 +64,12 @@ pub struct Case {
     /// clone the configured acceptor factory before building the service
     pub cloned: bool,
     pub calls: Vec<Call>,
+    /// capacity of the in-memory pipe per direction (0 = 1 MiB, i.e. never full)
+    #[serde(default)]
+    pub pipe_cap: u32,
+    /// the server writes its payload with vectored writes of this many slices (0 = write_all)
+    #[serde(default)]
+    pub slices: u8,
 }
 
 #[derive(Clone, Debug, PartialEq)]
@@ -341,9 +347,10 @@ async fn run_async(c: &Case) -> CaseResult {
             *parked.borrow_mut() = Some(cw);
             continue;
         }
-        let (server_end, client_end) = pipe_pair();
+        let (server_end, client_end) = if c.pipe_cap == 0 { pipe_pair() } else { crate::io::pipe_pair_cap(c.pipe_cap as usize) };
         inflight.set(n + 1);
         let (inflight2, recs2, parked2, gate_fail2) = (inflight.clone(), recs.clone(), parked.clone(), gate_fail.clone());
+        let slices = c.slices as usize;
         let down = match &call.client {
             Client::Complete { down, .. } => *down as usize,
             _ => 0,
@@ -386,7 +393,7 @@ async fn run_async(c: &Case) -> CaseResult {
                 Fut::R(f) => match f.await {
                     Ok(mut s) => {
                         mark(Outcome::Ok);
-                        integrity = Some(server_exchange(&mut s, up, down).await);
+                        integrity = Some(server_exchange(&mut s, up, down, slices).await);
                     }
                     Err(TlsError::Timeout) => mark(Outcome::Timeout),
                     Err(e) => {
@@ -399,7 +406,7 @@ async fn run_async(c: &Case) -> CaseResult {
                 Fut::O(f) => match f.await {
                     Ok(mut s) => {
                         mark(Outcome::Ok);
-                        integrity = Some(server_exchange(&mut s, up, down).await);
+                        integrity = Some(server_exchange(&mut s, up, down, slices).await);
                     }
                     Err(TlsError::Timeout) => mark(Outcome::Timeout),
                     Err(e) => {
@@ -441,6 +448,7 @@ async fn run_async(c: &Case) -> CaseResult {
     let recs = recs.borrow();
     let mut stalled_or_delayed = false;
     let mut big_payload = false;
+    let mut vectored_backpressure = false;
     for (i, (rec, call)) in recs.iter().zip(calls.iter()).enumerate() {
         if !rec.issued {
             obs.label("call-gated");
@@ -471,6 +479,9 @@ async fn run_async(c: &Case) -> CaseResult {
                         Some(Ok(())) => {}
                         Some(Err(e)) => return Err(Fail::new("C18/integrity", format!("call {}: {} (payload up {} / down {} bytes)", i, e, up, down))),
                         None => {}
+                    }
+                    if c.slices >= 2 && c.pipe_cap != 0 && (*down as usize) > c.pipe_cap as usize {
+                        vectored_backpressure = true;
                     }
                     if *up > 16384 || *down > 16384 {
                         big_payload = true;
@@ -515,19 +526,38 @@ async fn run_async(c: &Case) -> CaseResult {
     obs.label_if(stalled_or_delayed, "stalled-or-delayed-client");
     obs.label_if(reached_limit, "limit-reached");
     obs.label_if(big_payload, "payload>16KiB");
+    obs.label_if(vectored_backpressure, "vectored-write-under-backpressure");
+    obs.label_if(c.pipe_cap != 0, "small-pipe");
     obs.label_if(c.cloned, "cloned-factory");
     obs.label_if(services.len() >= 2, "two-services");
     Ok(obs)
 }
 
 /// server side of the payload exchange: receive `up` bytes, send `down` bytes
-async fn server_exchange<S: tokio::io::AsyncRead + tokio::io::AsyncWrite + Unpin>(s: &mut S, up: usize, down: usize) -> Result<(), String> {
+async fn server_exchange<S: tokio::io::AsyncRead + tokio::io::AsyncWrite + Unpin>(s: &mut S, up: usize, down: usize, slices: usize) -> Result<(), String> {
     let mut got = vec![0u8; up];
     s.read_exact(&mut got).await.map_err(|e| format!("server read: {e}"))?;
     if got != pattern(7, up) {
         return Err("bytes written by the client arrived changed at the server".into());
     }
-    s.write_all(&pattern(99, down)).await.map_err(|e| format!("server write: {e}"))?;
+    let data = pattern(99, down);
+    if slices >= 2 && down >= slices {
+        // vectored writes: the payload cut into `slices` pieces, re-offered from the first
+        // unwritten byte after every partial result (the write_all_vectored loop)
+        let mut written = 0;
+        while written < data.len() {
+            let rest = &data[written..];
+            let step = rest.len().div_ceil(slices);
+            let bufs: Vec<std::io::IoSlice<'_>> = rest.chunks(step.max(1)).map(std::io::IoSlice::new).collect();
+            let n = s.write_vectored(&bufs).await.map_err(|e| format!("server vectored write: {e}"))?;
+            if n == 0 {
+                return Err("server vectored write returned 0".into());
+            }
+            written += n;
+        }
+    } else {
+        s.write_all(&data).await.map_err(|e| format!("server write: {e}"))?;
+    }
     s.flush().await.map_err(|e| format!("server flush: {e}"))?;
     Ok(())
 }
@@ -552,18 +582,18 @@ pub fn strategy() -> impl Strategy<Value = Case> {
     (prop::collection::vec(lib(), 1..3), 1usize..4, prop::sample::select(vec![100u32, 500, 1000, 3000, 5000]), prop::bool::weighted(0.4))
         .prop_flat_map(|(libs, limit, timeout_ms, cloned)| {
             let calls = prop::collection::vec((0u8..2, client(timeout_ms), prop_oneof![3 => Just(0u32), 2 => 0u32..(timeout_ms + 200)]).prop_map(|(svc, client, at)| Call { svc, client, at }), 1..6);
-            (Just(libs), Just(limit), Just(timeout_ms), Just(cloned), calls)
+            (Just(libs), Just(limit), Just(timeout_ms), Just(cloned), calls, prop_oneof![2 => Just(0u32), 1 => prop::sample::select(vec![700u32, 1500, 4096, 20_000])], prop_oneof![1 => Just(0u8), 1 => 2u8..5])
         })
-        .prop_map(|(libs, limit, timeout_ms, cloned, calls)| Case { libs, limit, timeout_ms, cloned, calls })
+        .prop_map(|(libs, limit, timeout_ms, cloned, calls, pipe_cap, slices)| Case { libs, limit, timeout_ms, cloned, calls, pipe_cap, slices })
 }
 
-const RULE: &str = "(1..2 acceptor services on one thread from {rustls 0.23, OpenSSL}, limit 1..3, handshake timeout in {0.1, 0.5, 1, 3, 5} s, configured factory used directly or cloned, 1..5 calls at generated virtual times; clients: complete (rustls or OpenSSL client, generated delay before each write, payloads up to 64 KiB both ways), stall after n bytes, garbage with/without a record header, disconnect) over in-memory pipes under Tokio's paused clock, each case on a fresh thread; oracle: poll_ready is Pending iff the number of handshakes in progress on the thread is >= the limit and a parked poll is woken when a handshake ends; every call resolves to Ok / TLS error / Timeout no later than the timeout, Timeout never earlier, a completing client with total delay below the timeout gets Ok and both payloads arrive unchanged, a stalled client gets Timeout; non-trivial = a stalled or delayed client, the limit reached, or a payload > 16 KiB";
+const RULE: &str = "(1..2 acceptor services on one thread from {rustls 0.23, OpenSSL}, limit 1..3, handshake timeout in {0.1, 0.5, 1, 3, 5} s, configured factory used directly or cloned, 1..5 calls at generated virtual times; clients: complete (rustls or OpenSSL client, generated delay before each write, payloads up to 64 KiB both ways, the server writing its payload with write_all or with vectored writes of 2..4 slices), stall after n bytes, garbage with/without a record header, disconnect) over in-memory pipes (1 MiB per direction, or only 0.7..20 KB so that writers meet Pending in the middle of a write) under Tokio's paused clock, each case on a fresh thread; oracle: poll_ready is Pending iff the number of handshakes in progress on the thread is >= the limit and a parked poll is woken when a handshake ends; every call resolves to Ok / TLS error / Timeout no later than the timeout, Timeout never earlier, a completing client with total delay below the timeout gets Ok and both payloads arrive unchanged, a stalled client gets Timeout; non-trivial = a stalled or delayed client, the limit reached, or a payload > 16 KiB";
 
 pub fn run(ctx: &Ctx) {
     ctx.assume("virtual time (tokio::time::pause) with millisecond sampling; client delays never sum to within 10 ms of the timeout (the tie is not ranked by the property); only the rustls 0.23 and OpenSSL acceptors named in the quantifier are built");
     ctx.run_corpus::<Case>("accept", check_case);
     ctx.run_random(
-        Part::new("accept", RULE, ctx.tier.scale(30_000, 8)).floors(&[("stalled-or-delayed-client", 0.4), ("limit-reached", 0.2), ("outcome-ok", 0.3), ("outcome-timeout", 0.3), ("two-services", 0.3), ("cloned-factory", 0.2)]).shrink_iters(300),
+        Part::new("accept", RULE, ctx.tier.scale(30_000, 8)).floors(&[("stalled-or-delayed-client", 0.4), ("limit-reached", 0.2), ("outcome-ok", 0.3), ("outcome-timeout", 0.3), ("two-services", 0.3), ("cloned-factory", 0.2), ("small-pipe", 0.2), ("vectored-write-under-backpressure", 0.02)]).shrink_iters(300),
         strategy,
         check_case,
     );
